@@ -513,10 +513,35 @@ class EscapeAnalysis:
             # direct unpack of a split result: the number of pieces depends on the data (partition() always gives three, split() does not)
             self.sites_examined += 1
             k = len(st.targets[0].elts)
-            self._emit(f, "ValueError", st, f"unpacking `{norm(st.value)[:60]}` into {k} names: the number of pieces depends on the input", handlers, out, in_gen)
+            if not (k == 2 and self._sep_guard(f, st)):
+                self._emit(f, "ValueError", st, f"unpacking `{norm(st.value)[:60]}` into {k} names: the number of pieces depends on the input", handlers, out, in_gen)
         for ch in ast.iter_child_nodes(st):
             if isinstance(ch, ast.expr):
                 self._expr(f, ch, handlers, out, in_gen)
+
+    def _sep_guard(self, f: FuncInfo, st) -> bool:
+        """`a, b = x.split(SEP, 1)` (or rsplit) gives exactly two pieces when SEP occurs in x: the statement is reached only where
+        `SEP in x` holds (branch facts of the CFG: an enclosing test, or an earlier `if SEP not in x: return/raise/continue`), SEP is
+        a non-empty string constant and x is a plain name not stored between the test and the split."""
+        c = st.value
+        if c.func.attr not in ("split", "rsplit") or not isinstance(c.func.value, ast.Name) or c.keywords:
+            return False
+        if len(c.args) != 2 or not (isinstance(c.args[0], ast.Constant) and isinstance(c.args[0].value, str) and c.args[0].value):
+            return False
+        if not (isinstance(c.args[1], ast.Constant) and c.args[1].value == 1):
+            return False
+        x, sep = c.func.value.id, repr(c.args[0].value)
+        stores = [n for n in ast.walk(f.node) if isinstance(n, ast.Name) and n.id == x and isinstance(n.ctx, ast.Store)]
+        if len(stores) > 1 or (stores and any(a.arg == x for a in ast.walk(f.node.args) if isinstance(a, ast.arg))):
+            return False
+        from . import cfg as _cfg
+        g = _cfg.build(f.node)
+        for nid in g.nodes_of(st):
+            for t, v in g.branch_facts(nid):
+                tt = norm(t)
+                if (v is True and tt == f"{sep} in {x}") or (v is False and tt == f"{sep} not in {x}"):
+                    return True
+        return False
 
     def _len_guard(self, f: FuncInfo, st, name: str, k: int) -> bool:
         """A preceding `if len(name) != k: raise` (or == k test enclosing) in the same block."""
